@@ -8,7 +8,7 @@ T1 (tie)   : (a) the model's should_ignore_string against PrettyPrintConfig.shou
              from a generated cases file.
 T2 (search): the property itself, judged on the real renderer's output by an oracle that shares nothing with nbdime
              (own path/category walk over the diff)."""
-import os, re, sys, json, copy, subprocess, tempfile, shutil, hashlib, time
+import os, re, sys, json, copy, subprocess, tempfile, shutil, hashlib, time, codecs
 import core, c16_gen as G
 
 PROP = 'C16'
@@ -209,6 +209,7 @@ def gen_cli_tasks(chk, tier):
     return tasks
 
 def judge_cli(task, res):
+    if task.get('op') == 'cli-enc': return judge_cli_enc(task, res)
     if task['app'] == 'nbmerge': return judge_cli_merge(task, res)
     out = []
     for k, (argv, rec) in enumerate(zip(task['argvs'], res.get('recs', []))):
@@ -477,6 +478,107 @@ def gen_boundary_tasks(chk, tier):
             cli.append({'op': 'cli', 'app': 'nbmerge', 'pattern': 'boundary', 'nbs': [base, local, remote], 'argvs': margv, 'tools': [[True, True]] * len(margv), 'src': 'cli-boundary'})
     return tasks, cli
 
+# ------------------------------------------------------------------ encodings of the standard streams
+# Every entry point (nbdiff, nbshow incl. reading the notebook from stdin, nbmerge --decisions, nbmerge writing the merged
+# notebook to stdout, the git diff driver and the git merge driver with the argument lists git passes) runs as a process of its
+# own whose standard streams have the encoding its environment dictates (c16_gen.STREAM_ENVS: ASCII locales through LC_ALL /
+# LC_CTYPE / LANG with PYTHONUTF8=0 and PYTHONCOERCECLOCALE=0, the several roads to UTF-8 as controls, Latin-1 / cp1252 / KOI8-R /
+# ASCII through PYTHONIOENCODING with a replacing or, on text the codec can represent, a strict error handler), stdout being a
+# pipe or a file.  The notebooks hold text the encoding cannot represent (Latin-1 letters, cp1252 punctuation, BMP scripts and
+# symbols, combining marks, astral characters) in sources, stream / error / display outputs, inserted and deleted cells, metadata
+# values, metadata KEYS, tags and attachment names, and have non-ASCII file names.  Every piece of such text sits next to an
+# ASCII marker word (zq<n>x), so the judge can tell that a change was printed whatever the encoding did to the text itself.
+ENC_APPS = ['diffdriver', 'nbdiff', 'nbshow', 'nbmerge-decisions', 'diffdriver', 'mergedriver', 'nbdiff', 'nbmerge-stdout', 'nbshow-stdin']
+ENC_DIFF_ARGVS = [['--no-color'], [], ['--no-color', '--no-git'], ['--color-words'], ['--no-color', '--no-git', '--no-use-diff'], ['--no-git', '--no-use-diff'],
+                  ['-s', '--no-color'], ['-m', '-o'], ['-S', '--no-color', '--no-git'], ['--color-words', '--no-color']]
+ENC_SHOW_ARGVS = [[], ['-s'], ['-o', '-m'], ['-a', '-d'], ['-s', '-o', '-m', '-a']]
+ENC_ARGVS = {'nbdiff': ENC_DIFF_ARGVS, 'diffdriver': ENC_DIFF_ARGVS, 'nbshow': ENC_SHOW_ARGVS, 'nbshow-stdin': ENC_SHOW_ARGVS,
+             'nbmerge-decisions': [['--no-color'], [], ['--no-color', '--no-git', '--no-use-diff'], ['--no-git'], ['--merge-strategy', 'use-local'],
+                                   ['-s', '--no-color'], ['--merge-strategy', 'use-base', '--no-color']],
+             'nbmerge-stdout': [[], ['--merge-strategy', 'use-remote'], ['--merge-strategy', 'inline'], ['-s']],
+             'mergedriver': [[], ['--merge-strategy', 'use-local'], ['-s'], ['--merge-strategy', 'use-base']]}
+ENC_MARK = re.compile(r'zq\d+x')
+ENC_CRASH = re.compile(r'^Traceback \(most recent call last\):\n  File "[^"\n]+\.py", line \d+', re.M)
+ENC_EXC = re.compile(r'^([A-Za-z_][\w.]*(?:Error|Exception|Interrupt|Exit|Warning))\b', re.M)
+
+def gen_stream_encoding_tasks(chk, tier):
+    r = chk.rng
+    loc, utf, lossy, strict = (G.stream_envs(k) for k in ('locale', 'utf8', 'io-lossy', 'io-strict'))
+    tasks = []
+    thorough = tier == 'thorough'
+    for i in range({'quick': 18, 'thorough': 90}[tier]):
+        app = ENC_APPS[i % len(ENC_APPS)]
+        rep = G.ENC_REPERTOIRES[i % len(G.ENC_REPERTOIRES)]
+        A = ENC_ARGVS[app]
+        argvs = [A[0]] + [A[1 + (i + j) % (len(A) - 1)] for j in range(4 if thorough else 2)]
+        if i % 6 == 5:
+            # a strict codec asked for through PYTHONIOENCODING: text and file names the codec can represent
+            se = strict[(i // 6) % len(strict)]
+            docs = G.enc_documents(r, rep, codec=se['codec'])
+            stems = ['n', 'n', 'n']
+            plan = [(se, argvs), (utf[i % len(utf)], argvs[:1])]
+        else:
+            docs = G.enc_documents(r, rep)
+            stems = [r.choice(G.ENC_FILE_STEMS) for _ in range(3)]
+            plan = [(loc[i % len(loc)], argvs), (utf[i % len(utf)], argvs[:1]), (lossy[i % len(lossy)], argvs[:2])]
+            # PYTHONIOENCODING governs stdin as well and its handlers are made for writing (xmlcharrefreplace cannot decode at
+            # all): a notebook that arrives on stdin is read under the locale-made streams only
+            if app == 'nbshow-stdin': plan[2] = (loc[(i + 1) % len(loc)], argvs[:2])
+            if thorough: plan.append((loc[(i + 3) % len(loc)], argvs[1:3]))
+        base, local, remote = docs
+        if app in ('nbdiff', 'diffdriver'): nbs = [base, local] if i % 2 else [local, remote]
+        elif app in ('nbshow', 'nbshow-stdin'): nbs = [local]
+        else: nbs = [base, local, remote]
+        runs = [{'argv': a, 'env': e, 'sink': 'file' if (i + j + q) % 3 == 0 else 'pipe'} for q, (e, av) in enumerate(plan) for j, a in enumerate(av)]
+        tasks.append({'op': 'cli-enc', 'app': app, 'nbs': nbs, 'names': ['%s_%s.ipynb' % (st, 'abc'[j]) for j, st in enumerate(stems[:len(nbs)])],
+                      'path': 'dir/%s.ipynb' % stems[0],
+                      'ascii_json': (i % 2 == 1) != (app == 'nbshow-stdin') or (app == 'nbshow-stdin' and i % 6 == 5),      # backslash-u escapes or raw UTF-8 in the files
+                      'repertoire': rep, 'runs': runs, 'src': 'cli-enc'})
+    return tasks
+
+def enc_markers(doc): return {m for t in texts_of(doc) for m in ENC_MARK.findall(t)}
+
+def judge_cli_enc(task, res):
+    """per run: the process neither dies of an exception nor reports one (traceback / logging error on stderr), exits with
+    status 0 (nbmerge and the merge driver: 1 as well when the two sides differ = conflicts), writes no escape code with
+    --no-color, and -- with no ignore flag -- prints the marker word of every change: nbdiff / diff driver on stdout for text
+    present in exactly one of the two notebooks, nbshow for all text of the notebook, nbmerge --decisions on stderr for text a
+    side added to or removed from the base; the merge driver leaves a UTF-8 JSON notebook in %A."""
+    out = []
+    app = task['app']; nbs = task['nbs']
+    clean_inputs = not any(ESC in t for d in nbs for t in texts_of(d))
+    ms = [enc_markers(d) for d in nbs]
+    for k, (run, rec) in enumerate(zip(task['runs'], res.get('recs', []))):
+        argv = run['argv']; env = run['env']
+        where = {'k': k, 'argv': argv, 'environment': env['name'], 'variables': env['vars'], 'stdout_is': run.get('sink'), 'stream': rec.get('stream')}
+        if rec.get('timeout'):
+            out.append(('enc-cli-timeout:' + app, where)); continue
+        err = rec.get('err', ''); text = rec.get('out', '')
+        if ENC_CRASH.search(err) or 'UnicodeEncodeError' in err or 'UnicodeDecodeError' in err:
+            names = ENC_EXC.findall(err)
+            out.append(('enc-cli-raises:%s:%s' % (app, names[-1] if names else '?'),
+                        dict(where, rc=rec.get('rc'), stderr=err[-700:], printed_before=text[-200:]))); continue
+        merges = app in ('nbmerge-decisions', 'nbmerge-stdout', 'mergedriver')
+        if rec.get('rc') not in ((0, 1) if merges and nbs[1] != nbs[2] else (0,)):
+            out.append(('enc-cli-exit-status:' + app, dict(where, rc=rec.get('rc'), stderr=err[-400:], out=text[-200:]))); continue
+        seen_text = text + (err if app == 'nbmerge-decisions' else '')
+        if '--no-color' in argv and ESC in seen_text and clean_inputs:
+            j = seen_text.index(ESC)
+            out.append(('nocolor-ansi:enc-cli-' + app, dict(where, around=seen_text[max(0, j - 60): j + 40]))); continue
+        if app == 'mergedriver' and not rec.get('merged_ok'):
+            out.append(('enc-cli-merge-result-unreadable', dict(where, rc=rec.get('rc'), error=rec.get('merged_err')))); continue
+        flags = [a for a in argv if len(a) == 2 and a[0] == '-' and a[1].lower() in FLAG_CAT]
+        want = None
+        if not flags:
+            if app in ('nbdiff', 'diffdriver'): want = ms[0] ^ ms[1]
+            elif app in ('nbshow', 'nbshow-stdin'): want = ms[0]
+            elif app == 'nbmerge-decisions': want = (ms[0] ^ ms[1]) | (ms[0] ^ ms[2])
+        if want:
+            missing = sorted(want - set(ENC_MARK.findall(strip_ansi(seen_text))))
+            if missing:
+                out.append(('enc-cli-change-not-shown:' + app, dict(where, missing_markers=missing, out=seen_text[-300:])))
+    return out
+
 # ------------------------------------------------------------------ Coq terms for the generated cases file
 def cstr(s):
     if all(32 <= ord(ch) < 127 and ch != '"' for ch in s): return '(of_ascii "%s")' % s
@@ -616,6 +718,7 @@ def run(tier, seed):
     cli += gen_merge_cli_tasks(chk, tier)    # drawn after the git family for the same reason
     btasks, bcli = gen_boundary_tasks(chk, tier)      # drawn last of all and appended behind every earlier family: tasks[:40], the samples
     tasks += btasks; cli += bcli                      # and all earlier random draws are as they were before this family existed
+    cli += gen_stream_encoding_tasks(chk, tier)       # drawn after everything else, appended last: every earlier task and draw is unchanged
     results = core.run_impl(tasks + t1cases + cli, shards=14, script='c16_runner.py')
     res_main = results[:len(tasks)]; res_t1 = results[len(tasks):len(tasks) + len(t1cases)]; res_cli = results[len(tasks) + len(t1cases):]
 
@@ -645,11 +748,27 @@ def run(tier, seed):
                 case = {k: t[k] for k in ('op', 'nb', 'a', 'b', 'base', 'local', 'remote', 'strategy') if k in t}
                 case['configs'] = [t['configs'][ci]]
                 chk.violation(sig, case, detail)
-    ncli = 0; ngit = 0; nmerge = 0
+    ncli = 0; ngit = 0; nmerge = 0; nenc = 0
     for t, res in zip(cli, res_cli):
         if 'task_err' in res:
             chk.broken_obligation('runner-cli:' + res['task_err'], res.get('msg', '')[-600:]); continue
         ncli += len(res.get('recs', []))
+        if t['op'] == 'cli-enc':
+            recs = res.get('recs', [])
+            nenc += len(recs); hist['cli-enc:' + t['app']] = hist.get('cli-enc:' + t['app'], 0) + len(recs)
+            for run, rec in zip(t['runs'], recs):
+                kk = 'cli-enc:streams:' + run['env']['kind']; hist[kk] = hist.get(kk, 0) + 1
+                try: established = codecs.lookup(rec.get('stream', '?').split()[0]).name == codecs.lookup(run['env']['codec']).name
+                except Exception: established = False
+                if not established:
+                    chk.broken_obligation('harness:stream-encoding-not-established', {'environment': run['env'], 'python_reports': rec.get('stream')})
+                if rec.get('out') or rec.get('err'):
+                    nontrivial.add(hashlib.sha1((json.dumps([run['argv'], run['env']['name']]) + rec.get('out', '') + rec.get('err', '')).encode('utf8', 'replace')).hexdigest())
+            for sig, detail in judge_cli_enc(t, res):
+                case = {kk: t[kk] for kk in ('op', 'app', 'nbs', 'names', 'path', 'ascii_json', 'repertoire') if kk in t}
+                case['runs'] = [t['runs'][detail['k']]]
+                chk.violation(sig, case, detail)
+            continue
         if t['app'] == 'nbdiff-git':
             ngit += len(res.get('recs', [])); hist['cli:cli-git'] = hist.get('cli:cli-git', 0) + 1
         if t.get('src') == 'cli-boundary' and t['app'] != 'nbmerge': hist['cli:cli-boundary:' + t['app']] = hist.get('cli:cli-boundary:' + t['app'], 0) + 1
@@ -763,10 +882,11 @@ def run(tier, seed):
         'evaluations': nrender + ncli, 'distinct_nontrivial': len(nontrivial),
         'rule': 'one evaluation = one rendering (notebook / notebook diff from nbdime.diff_notebooks / decision list from decide_notebook_merge, or one nbdiff/nbshow/git-nbdiffdriver invocation, nbdiff also between two revisions of a scratch git history with several changed notebooks, or one nbmerge --decisions invocation over base/local/remote files any of which may be the null file) under one configuration; '
                 'boundary family (src boundary / boundary-exotic / cli-boundary): notebook pairs and triples that differ in entries of free-form dictionaries (notebook, cell and output metadata and dictionaries nested in them, kernelspec / language_info extras, MIME bundles of outputs and attachments) or in a string field of the schema, where the entry appears, disappears, changes type or changes value and one side is a boundary value of its type (empty / blank / newline-only string, 0, huge number, boolean, null, empty or nearly empty container), rendered as diff, decision list, notebook and through nbdiff / diff driver / nbshow / nbmerge --decisions; '
+                'stream-encoding family (src cli-enc): nbdiff / nbshow (file and stdin) / nbmerge --decisions / nbmerge to stdout / git diff driver / git merge driver, each as a process of its own whose standard streams are ASCII (LC_ALL / LC_CTYPE / LANG = C or POSIX or unset, PYTHONUTF8=0, PYTHONCOERCECLOCALE=0), UTF-8 (four ways, controls) or Latin-1 / cp1252 / KOI8-R / ASCII through PYTHONIOENCODING with a replacing handler (strict handler only on text the codec can represent), stdout a pipe or a file, on notebooks with non-ASCII file names whose sources, outputs, inserted / deleted cells, metadata values and keys, tags and attachment names hold text outside the encoding (Latin-1, cp1252, BMP, combining, astral), x renderer x colour x a few ignore flags; one evaluation = one process; '
                 'configurations: all 64 ignore subsets x colour x colour-words x {git, diff, difflib} in full on a few cases and with the 12 colour/renderer combinations in rotation on the others, all 16 (use_git,use_diff,has_git,has_diff) settings on one case; '
                 'non-trivial = rendering of a non-empty diff / notebook / decision list that produced output, distinct by sha1 of (configuration, output text)',
         'input_distribution': hist, 'traces_validated_against_impl': t1, 'model_impl_mismatches': t1_mismatch,
-        'filter_paths_compared': len(paths), 'render_skeleton_cases_compared': len(rcases), 'cli_invocations': ncli, 'cli_git_revision_invocations': ngit, 'cli_nbmerge_decisions_invocations': nmerge,
+        'filter_paths_compared': len(paths), 'render_skeleton_cases_compared': len(rcases), 'cli_invocations': ncli, 'cli_git_revision_invocations': ngit, 'cli_nbmerge_decisions_invocations': nmerge, 'cli_stream_encoding_invocations': nenc,
         'exhaustive': False,
         'explanation': 'proved: filter vs categories, colour tables / command lines clean without colour, renderer selection, dispatch skeleton total on well-formed diffs (premises: string patch total, tool contract), silent on empty, speaks on visible leaves; explored only: value formatters, pprint, pygments, output of git/diff',
     })
@@ -780,7 +900,7 @@ def replay(path):
     case = body['case']
     chk = core.Check(PROP, 'quick', 0)
     res = core.run_impl([case], shards=1, script='c16_runner.py')[0]
-    if case.get('op') == 'cli':
+    if case.get('op') in ('cli', 'cli-enc'):
         sigs = judge_cli(case, res)
     else:
         if 'recs' not in res:
